@@ -272,6 +272,24 @@ struct Durable {
     bytes: Vec<u8>,
     /// deliveries made to the slot since the checkpoint: (style, stream, tape indices)
     log: Vec<(u8, usize, [Vec<u32>; 2])>,
+    /// refused calls since the checkpoint, by position in `log` before which they happened:
+    /// (position, style, explicit records)
+    refused: Vec<(usize, u8, [Vec<Bits>; 2])>,
+}
+
+/// kind of a `Fault` event in the checkpoint configuration: a call the library must refuse (a
+/// non-positive record for the geometric / harmonic accumulators, streams of unequal length for
+/// Paired). A refused call is part of an accumulation history like any other call: the state it
+/// leaves behind is checkpointed, restored and must keep matching the never-restarted twin.
+pub const FK_REFUSED: u8 = 9;
+
+/// the records of a refused call, derived from the event's payload
+fn refused_records<M: Machine>(payload: Bits) -> [Vec<Bits>; 2] {
+    if M::LOCKSTEP {
+        [vec![payload, payload, payload], vec![payload]]
+    } else {
+        [vec![payload], vec![]]
+    }
 }
 
 fn take_indices<M: Machine>(w: &mut World<M>, stream: usize, len: usize, style: u8) -> [Vec<u32>; 2] {
@@ -339,6 +357,22 @@ pub fn exec<M: Ckpt>(tr: &Trace, stats: &mut Stats) -> (Vec<Violation>, Reach, V
                     d.log.push((*style, stream, idx));
                 }
             }
+            Event::Fault { dst, style, kind, payload, .. } if *kind == FK_REFUSED => {
+                if w.get(*dst).is_none() || tw.get(*dst).is_none() {
+                    continue;
+                }
+                let recs = refused_records::<M>(*payload);
+                let o1 = M::deliver(&mut w.slots[*dst as usize].as_mut().unwrap().st, *style, 0, [&recs[0], &recs[1]]);
+                let o2 = M::deliver(&mut tw.slots[*dst as usize].as_mut().unwrap().st, *style, 0, [&recs[0], &recs[1]]);
+                *fired.entry(format!("refused-call:{}", if o1.is_ok() { "accepted" } else { "refused" })).or_insert(0) += 1;
+                if o1.class() != o2.class() {
+                    fail!("restarted-state-answers-differently-from-twin", *dst, format!("a call that must be refused: {} on the restarted state, {} on the twin", o1.class(), o2.class()));
+                }
+                if let Some(d) = durable.get_mut(dst) {
+                    let at = d.log.len();
+                    d.refused.push((at, *style, recs));
+                }
+            }
             Event::Merge { a, b, dst, .. } => {
                 w.step(ev);
                 tw.step(ev);
@@ -387,7 +421,7 @@ pub fn exec<M: Ckpt>(tr: &Trace, stats: &mut Stats) -> (Vec<Violation>, Reach, V
                 if M::observe(&back, plan) != M::observe(&s.st, plan) {
                     fail!("restored-value-reports-different-statistics", *a, format!("{fp}"));
                 }
-                durable.insert(*a, Durable { enc: use_json as u8, bytes, log: Vec::new() });
+                durable.insert(*a, Durable { enc: use_json as u8, bytes, log: Vec::new(), refused: Vec::new() });
             }
             Event::CrashRestore { a } => {
                 let Some(d) = durable.get(a) else { continue };
@@ -401,7 +435,10 @@ pub fn exec<M: Ckpt>(tr: &Trace, stats: &mut Stats) -> (Vec<Violation>, Reach, V
                     Ok(s) => s,
                     Err(e) => fail!("deserialize-failed", *a, e),
                 };
-                for (style, stream, idx) in &d.log {
+                for (k, (style, stream, idx)) in d.log.iter().enumerate() {
+                    for (_, rstyle, rrecs) in d.refused.iter().filter(|x| x.0 == k) {
+                        let _ = M::deliver(&mut st, *rstyle, 0, [&rrecs[0], &rrecs[1]]);
+                    }
                     let recs: [Vec<Bits>; 2] = [
                         idx[0].iter().map(|&i| w.tapes[0][i as usize]).collect(),
                         idx[1].iter().map(|&i| w.tapes[1][i as usize]).collect(),
@@ -410,6 +447,9 @@ pub fn exec<M: Ckpt>(tr: &Trace, stats: &mut Stats) -> (Vec<Violation>, Reach, V
                     if !o.is_ok() {
                         fail!("valid-delivery-rejected-after-restore", *a, o.class());
                     }
+                }
+                for (_, rstyle, rrecs) in d.refused.iter().filter(|x| x.0 == d.log.len()) {
+                    let _ = M::deliver(&mut st, *rstyle, 0, [&rrecs[0], &rrecs[1]]);
                 }
                 // the in-memory state is discarded and replaced by the recovered one
                 w.slots[*a as usize].as_mut().unwrap().st = st;
@@ -483,6 +523,17 @@ pub fn generate<M: Machine>(verif_seed: u64, run: u64) -> Trace {
     let n_workers = r.usize_in(1, 4) as u16;
     let p_ckpt = *r.pick(&[0.1, 0.3, 0.6]);
     let p_crash = *r.pick(&[0.1, 0.3, 0.6]);
+    // refused calls (only the machines that can refuse one); off in half of the runs
+    let can_refuse = positive || M::LOCKSTEP;
+    let p_refuse = if can_refuse { *r.pick(&[0.0, 0.0, 0.1, 0.3]) } else { 0.0 };
+    let refuse_payloads: Vec<Bits> = if positive {
+        crate::faulty::nonpositive_payloads(flt).into_iter().map(|x| x.1).collect()
+    } else {
+        vec![match flt {
+            Flt::F32 => (1.5f32).to_bits() as u64,
+            _ => (1.5f64).to_bits(),
+        }]
+    };
     let mut tr = Trace {
         property: "C20".into(),
         config: "checkpoint".into(),
@@ -493,7 +544,7 @@ pub fn generate<M: Machine>(verif_seed: u64, run: u64) -> Trace {
         isolated: false,
         tapes,
         events: Vec::new(),
-        knobs: json!({"p_checkpoint": p_ckpt, "p_crash": p_crash, "workers": n_workers}),
+        knobs: json!({"p_checkpoint": p_ckpt, "p_crash": p_crash, "p_refused_call": p_refuse, "workers": n_workers}),
         violation: None,
         extra: Value::Null,
     };
@@ -538,6 +589,10 @@ pub fn generate<M: Machine>(verif_seed: u64, run: u64) -> Trace {
                     live.push(dst);
                 }
                 tr.events.push(Event::Deliver { dst, stream: stream as u8, len, style, ctor: r.below(M::N_EMPTY as u64) as u8 });
+                if p_refuse > 0.0 && r.chance(p_refuse) {
+                    let payload = *r.pick(&refuse_payloads);
+                    tr.events.push(Event::Fault { dst, stream: 0, len: 0, style: r.below(M::N_STYLES as u64) as u8, kind: FK_REFUSED, pos: 0, payload });
+                }
                 touched = Some(dst);
             }
             1 => {
